@@ -37,6 +37,17 @@ def check_one(api: str, version: int, etype: str, modname: str) -> list[tuple[st
     pin = pins()["apis"].get(api, {}).get(etype)
     if pin is None:
         return [("not-pinned", f"{modname}: API/type not in the pins")]
+    # the documented way to obtain the class is through the version package (from kio.schema.<api>.v<N> import <Class>):
+    # it must hand out THIS class, to which all the rules below apply
+    pkgname = modname.rsplit(".", 1)[0]
+    try:
+        exported = getattr(importlib.import_module(pkgname), c.__name__, None)
+    except Exception as e:
+        exported = None
+        out.append((f"package-not-importable:{type(e).__name__}", f"{pkgname}: {e!r}"))
+    if exported is not None and exported is not c:
+        out.append(("package-exports-other-class", f"{pkgname}.{c.__name__} is {getattr(exported, '__module__', '?')}.{getattr(exported, '__qualname__', '?')} "
+                    f"(version {getattr(exported, '__version__', '?')}, flexible {getattr(exported, '__flexible__', '?')}), not the class of {modname}"))
     flexible = pinned_flexible(api, etype, version)
     if c.__flexible__ is not flexible:
         out.append(("flexible-vs-pin", f"{modname}:{c.__name__}.__flexible__={c.__flexible__!r}, Kafka says {flexible}"))
